@@ -335,6 +335,7 @@ def loader_keeps_every_record(ck, m):
             continue
         n += 1
         extra = []
+        ordered = []
         for sb in sorted(body):
             ts = lb.term(sb)
             if ts['k'] != 'switch':
@@ -347,9 +348,11 @@ def loader_keeps_every_record(ck, m):
             consts, srcs = set(), []
             pl = ts['o'].get('c') or ts['o'].get('m')
             direct = True
+            cmp_ops = set()
             for (dbi, dsi, kind, rv) in (lb.defs().get(pl['l'], []) if pl else []):
                 if kind == 'assign' and rv['k'] == 'bin':
                     direct = False
+                    cmp_ops.add(rv['op'])
                     for k_ in ('a', 'b'):
                         rs = origins(lb, rv[k_], stop_at_calls=True)
                         consts |= {const_val(r) for r in rs if r[0] == 'const'}
@@ -362,6 +365,11 @@ def loader_keeps_every_record(ck, m):
             # the end-of-file test: the Result of a read matched directly, or the count it returned compared with zero
             from_read = bool(srcs) and all(r[0] == 'call' and callee_decl(lb.term(r[1])).startswith('std::io::Read::read') for r in srcs)
             eof = from_read and (direct or consts == {0})
+            if marker and not cmp_ops <= {'Eq', 'Ne'}:
+                # the marker is ONE version: a test by ordering also skips every other negative version (the in-conflict marker -2 of a key
+                # that waits for its arbiter)
+                ordered.append(lb.loc(sb))
+                continue
             if marker or eof:
                 continue
             extra.append(lb.loc(sb))
@@ -370,6 +378,11 @@ def loader_keeps_every_record(ck, m):
               'the loader can skip a record on another condition (%s): a key whose record is on disk is not loaded — a bounds test that counts '
               'bytes the loader never reads (the status trailer still in the writer\'s buffer at the kill) drops an updated key together with its '
               'old value' % extra, extra[0] if extra else '')
+        ck.ob('C11.h', short(lb.id), 'deleted-marker-tested-by-equality', not ordered,
+              'the loader compares the record version with the deleted marker by equality' if not ordered else
+              'the loader tests the deleted marker by ordering (%s): every version on the far side of the marker is skipped as well — a key frozen at '
+              'the in-conflict version (-2) is dropped at start-up while its conflict record is restored, later writes are applied without the '
+              'arbiter' % ordered, ordered[0] if ordered else '')
     ck.floor('C11.h', n, 1, 'record loops of the loader (read + insert)')
 
 
